@@ -1,0 +1,36 @@
+//go:build verif
+
+// Add-only verification hook (build tag `verif`): drives the unexported txList / txSortedMap directly, so that the
+// nonce-sorted map can be compared operation by operation with its model (heap layout included in the behaviour).
+package core
+
+import (
+	"math/big"
+
+	"gitlab.com/aquachain/aquachain/core/types"
+)
+
+// VerifTxList wraps a txList.
+type VerifTxList struct{ l *txList }
+
+func VerifNewTxList(strict bool) *VerifTxList { return &VerifTxList{newTxList(strict)} }
+
+func (v *VerifTxList) Add(tx *types.Transaction, priceBump uint64) (bool, *types.Transaction) {
+	return v.l.Add(tx, priceBump)
+}
+func (v *VerifTxList) Forward(threshold uint64) types.Transactions { return v.l.Forward(threshold) }
+func (v *VerifTxList) Filter(costLimit *big.Int, gasLimit uint64) (types.Transactions, types.Transactions) {
+	return v.l.Filter(costLimit, gasLimit)
+}
+func (v *VerifTxList) Cap(threshold int) types.Transactions { return v.l.Cap(threshold) }
+func (v *VerifTxList) Remove(tx *types.Transaction) (bool, types.Transactions) {
+	return v.l.Remove(tx)
+}
+func (v *VerifTxList) Ready(start uint64) types.Transactions { return v.l.Ready(start) }
+func (v *VerifTxList) Flatten() types.Transactions           { return v.l.Flatten() }
+func (v *VerifTxList) Overlaps(tx *types.Transaction) bool   { return v.l.Overlaps(tx) }
+func (v *VerifTxList) Len() int                              { return v.l.Len() }
+func (v *VerifTxList) Empty() bool                           { return v.l.Empty() }
+
+// Snapshot reads items / index / ceilings without touching the cache.
+func (v *VerifTxList) Snapshot() VerifPoolList { return verifList(v.l) }
